@@ -35,6 +35,23 @@ type srvCfg struct {
 	Burst   int    `json:"burst"`
 	Procs   int    `json:"gomaxprocs"`
 	Seed    uint64 `json:"seed"`
+	// slow-reader phase (plain TCP): the first Slow queries get 30..60 KiB
+	// replies, the client does not read for PauseMs (socket buffers 16 KiB on
+	// both sides), then reads everything and pipelines the remaining queries
+	Slow    int `json:"slow_reader_big_replies,omitempty"`
+	PauseMs int `json:"slow_reader_pause_ms,omitempty"`
+}
+
+// smallBufListener gives accepted connections a small send buffer so that the
+// slow-reader phase does not depend on the host's tcp_wmem autotuning.
+type smallBufListener struct{ net.Listener }
+
+func (l smallBufListener) Accept() (net.Conn, error) {
+	c, err := l.Listener.Accept()
+	if tc, ok := c.(*net.TCPConn); err == nil && ok {
+		tc.SetWriteBuffer(16 * 1024)
+	}
+	return c, err
 }
 
 type qParams struct {
@@ -48,6 +65,13 @@ type qParams struct {
 func srvParams(seed uint64, conn, seq int) qParams {
 	r := mix(seed ^ uint64(conn)<<40 ^ uint64(seq)*0x9e3779b1)
 	var p qParams
+	if conn >= 1000 && seq < conn/1000 {
+		// slow-reader connection: large replies, written at once
+		p.n = 30000 + int((r>>8)%31440)
+		p.raw = (r>>32)%8 == 0
+		p.echo = (r>>36)%2 == 0
+		return p
+	}
 	switch r % 10 {
 	case 0, 1, 2, 3:
 		p.n = 13 + int((r>>8)%88)
@@ -271,6 +295,8 @@ func startServer(cfg srvCfg) (*srvBatch, error) {
 			}
 			l = tls.NewListener(l, &tls.Config{Certificates: []tls.Certificate{cert}})
 			b.tlsConf = &tls.Config{InsecureSkipVerify: true, ServerName: "c16.test"}
+		} else if cfg.Slow > 0 {
+			l = smallBufListener{l}
 		}
 		go server.ServeTCP(l, b.h, server.TCPServerOpts{IdleTimeout: 60 * time.Second})
 		b.stop = func() { l.Close() }
@@ -358,9 +384,15 @@ func (b *srvBatch) runStreamConn(ci int) {
 		rep.Inconclusive("dial %s: %v", b.addr, err)
 		return
 	}
+	pc := ci // connection number as the handler sees it (selects the reply parameters)
 	if tc, ok := raw.(*net.TCPConn); ok {
 		tc.SetNoDelay(true)
+		if cfg.Slow > 0 {
+			tc.SetReadBuffer(16 * 1024)
+			pc = cfg.Slow*1000 + ci
+		}
 	}
+	resume := make(chan struct{})
 	var c net.Conn = raw
 	if cfg.Proto == "tls" {
 		c = tls.Client(raw, b.tlsConf)
@@ -378,6 +410,13 @@ func (b *srvBatch) runStreamConn(ci int) {
 		r := xrng{s: cfg.Seed ^ uint64(ci)<<32 ^ 0x1234}
 		var pend []byte
 		for seq := 0; seq < cfg.Queries; seq++ {
+			if cfg.Slow > 0 && seq == cfg.Slow {
+				select {
+				case <-resume:
+				case <-stopW:
+					return
+				}
+			}
 			select {
 			case window <- struct{}{}:
 			case <-stopW:
@@ -386,7 +425,7 @@ func (b *srvBatch) runStreamConn(ci int) {
 			mu.Lock()
 			outstanding[uint16(seq)] = seq
 			mu.Unlock()
-			pend = append(pend, wire.Frame(srvQuery(cfg.Seed, ci, seq))...)
+			pend = append(pend, wire.Frame(srvQuery(cfg.Seed, pc, seq))...)
 			if r.intn(4) == 0 && seq+1 < cfg.Queries && len(window) < cap(window) {
 				continue // coalesce with the next frame
 			}
@@ -402,6 +441,17 @@ func (b *srvBatch) runStreamConn(ci int) {
 	buf := make([]byte, 70000)
 	received := 0
 	fail := false
+	if cfg.Slow > 0 {
+		// the client is busy with something else while the replies pile up
+		time.Sleep(time.Duration(cfg.PauseMs) * time.Millisecond)
+		pending := 0
+		for seq := 0; seq < cfg.Slow; seq++ {
+			pending += 2 + srvParams(cfg.Seed, pc, seq).n
+		}
+		rep.Count("server_slow_reader_bytes_pending_during_pause", int64(pending))
+		rep.Count("server_slow_reader_handlers_returned_during_pause", b.h.returned.Load())
+		close(resume)
+	}
 	for received < cfg.Queries && !fail {
 		k := len(buf)
 		switch rr.intn(4) {
@@ -428,7 +478,7 @@ func (b *srvBatch) runStreamConn(ci int) {
 					what = fmt.Sprintf("frame of %d bytes starts with ID %#04x, which is not outstanding", len(f), binary.BigEndian.Uint16(f))
 				} else {
 					seq = s
-					want := srvExpected(cfg.Seed, ci, seq)
+					want := srvExpected(cfg.Seed, pc, seq)
 					if len(f) != len(want) {
 						what = fmt.Sprintf("reply to query %d is %d bytes, the frame carries %d", seq, len(want), len(f))
 					} else if !bytes.Equal(f, want) {
@@ -443,8 +493,11 @@ func (b *srvBatch) runStreamConn(ci int) {
 			}
 			received++
 			b.verified.Add(1)
-			p := srvParams(cfg.Seed, ci, seq)
-			rep.Nontrivial(fmt.Sprintf("srv|%s|n%d|raw%v|d%d", cfg.Proto, p.n, p.raw, p.delay))
+			p := srvParams(cfg.Seed, pc, seq)
+			rep.Nontrivial(fmt.Sprintf("srv|%s|n%d|raw%v|d%d|slow%v", cfg.Proto, p.n, p.raw, p.delay, cfg.Slow > 0))
+			if cfg.Slow > 0 {
+				rep.Count("server_slow_reader_replies_verified", 1)
+			}
 			<-window
 		}
 		if err != nil && !fail && received < cfg.Queries {
@@ -577,6 +630,6 @@ func runServerBatch(cfg srvCfg) {
 		rep.Count("server_queries_misread", b.h.bad.Load())
 	}
 	{
-		sampleKind("server-"+cfg.Proto, 1, map[string]any{"server_batch": cfg, "replies_verified_intact": b.verified.Load(), "handler_calls": b.h.handled.Load(), "max_handlers_in_flight": b.h.maxIn.Load()})
+		sampleKind(fmt.Sprintf("server-%s-slow%v", cfg.Proto, cfg.Slow > 0), 1, map[string]any{"server_batch": cfg, "replies_verified_intact": b.verified.Load(), "handler_calls": b.h.handled.Load(), "max_handlers_in_flight": b.h.maxIn.Load()})
 	}
 }
